@@ -81,3 +81,5 @@ func refEventSigValid(ev *ref.Value, t *ref.VersionTraits, server, keyID string,
 }
 
 var baseTime = time.UnixMilli(1700000000000)
+
+func edSign(id *gen.Identity, payload []byte) []byte { return ed25519.Sign(id.Priv, payload) }
